@@ -2,19 +2,22 @@
 """Collect the confirmed seeded changes into /verif/seeded/<id>/{patch.diff,demonstration.md,meta.json}
 and print the catch matrix (markdown) for DESIGN.md 12.6.
 
-Inputs: the sub-agents' output directories /tmp/mut{,2,3}-<PROP>-out/<k>/ and the screening table
-work/mut/results_final3.tsv (wave, property, k, viol=N, rules, summary) plus work/mut/extra_catches.tsv
+Inputs: the sub-agents' output directories /tmp/mut{,2,3,4,5}-<PROP>-out/<k>/ and the screening tables
+work/mut/results_final3.tsv, results_w4.tsv, results_w5.tsv (wave, property, k, viol=N, rules, summary) plus work/mut/extra_catches.tsv
 (wave, property, k, check, rules, note) for changes caught by another property's check or tier.
 """
 import glob, json, os, shutil, sys, re
 
 ROOT = '/verif'
 res = {}
-for line in open(f'{ROOT}/work/mut/results_final3.tsv'):
-    f = line.rstrip('\n').split('\t')
-    if len(f) < 5:
+for tsv in ('results_final3.tsv', 'results_w4.tsv', 'results_w5.tsv'):
+    if not os.path.exists(f'{ROOT}/work/mut/{tsv}'):
         continue
-    res[(f[0], f[1], f[2])] = (f[3], f[4].strip(','), f[5] if len(f) > 5 else '')
+    for line in open(f'{ROOT}/work/mut/{tsv}'):
+        f = line.rstrip('\n').split('\t')
+        if len(f) < 5:
+            continue
+        res[(f[0], f[1], f[2])] = (f[3], f[4].strip(','), f[5] if len(f) > 5 else '')
 extra = {}
 p = f'{ROOT}/work/mut/extra_catches.tsv'
 if os.path.exists(p):
@@ -23,11 +26,11 @@ if os.path.exists(p):
         if len(f) >= 5:
             extra.setdefault((f[0], f[1], f[2]), []).append((f[3], f[4], f[5] if len(f) > 5 else ''))
 
-wave_no = {'mut': 1, 'mut2': 2, 'mut3': 3}
+wave_no = {'mut': 1, 'mut2': 2, 'mut3': 3, 'mut4': 4, 'mut5': 5}
 rows = []
 os.makedirs(f'{ROOT}/seeded', exist_ok=True)
 for d in sorted(glob.glob('/tmp/mut*-C??-out/[0-9]*')):
-    m = re.match(r'/tmp/(mut[23]?)-(C\d\d)-out/(\d+)$', d)
+    m = re.match(r'/tmp/(mut[2345]?)-(C\d\d)-out/(\d+)$', d)
     if not m or not os.path.exists(f'{d}/patch.diff') or not os.path.exists(f'{d}/meta.json'):
         continue
     w, prop, k = m.groups()
